@@ -440,6 +440,15 @@ func (m *Manager) addTCPConnection(allocation *Allocation, conn net.Conn) (proto
 	m.lock.Lock()
 	defer m.lock.Unlock()
 
+	select {
+	case <-allocation.closed:
+		// The allocation ended while the peer was being dialled (or its connection
+		// accepted): registered now, the connection would stay behind on a dead
+		// allocation until its bind timer fires.
+		return 0, ErrTCPConnectionTimeoutOrFailure
+	default:
+	}
+
 	for _, a := range m.allocations {
 		if _, ok := a.tcpConnections[connectionID]; ok {
 			return 0, errFailedToGenerateConnectionID
